@@ -380,7 +380,7 @@ NP_OUT = ['numeric bit patterns through numpy cast / astype / tobytes kernels, N
           'real HDF5 I/O (h5py.File is a dict-like stub)']
 NP_SELF = ['venv:vf.stubs.selftest:selftest_rope_struct', 'venv:vf.stubs.selftest:selftest_npstub']
 
-_window = _pair('c11', 'window', (300, 600), 'every source kind (dict, structured copy path, structured fast path, HDF5, structured with permuted fields); total<=1000 rows; '
+_window = _pair('c11', 'window', (300, 600), 'every source kind (dict, structured copy path, structured fast path, HDF5, structured with permuted fields); total<=10**6 rows (symbolic; replays materialise up to 20000); '
                 'any window 0<=from<to<=total or open; any chunk 0<=start<=stop<=n_rows or open', ['SourceDataWrapper.load_chunk', 'NumpyDataWrapper.load_chunk'],
                 replay=D + 'replay_window', validate=D + 'replay_window', shards=(5, 5)) + [
     dict(fn=H + 'c11.wit_window_fast_path_offset', kind='witness', timeout=(60, 60), validate=D + 'replay_window')]
@@ -690,6 +690,8 @@ SPECS['C15']['obligations'] = SPECS['C15']['obligations'] + _find('C10', 'ob_glu
 SPECS['C16']['obligations'] = SPECS['C16']['obligations'] + _find('C10', 'ob_buffer_step') + _find('C10', 'reach_buffer_step') + _find('C10', 'wit_buffer_two_flushes')
 # C12: a write that returns normally has unique object identities - the copy-number obligations of C07
 SPECS['C12']['obligations'] = SPECS['C12']['obligations'] + _find('C07', 'ob_copy_origin') + _find('C07', 'reach_copy_origin') + _find('C07', 'ob_copy_step') + _find('C07', 'reach_copy_step')
+# C14: a rejected call is process history - the C20 obligations on rejected calls decide that it leaves nothing behind
+SPECS['C14']['obligations'] = SPECS['C14']['obligations'] + _find('C20', 'ob_rejected') + _find('C20', 'reach_rejected') + _find('C20', 'ob_rejected_api') + _find('C20', 'reach_rejected_api')
 _ofirst = _pair('c09', 'origin_first', (200, 400), 'every add_* method of LogicalFile (20, by introspection) as the call before add_origin and / or after it, named set or not: FILE-HEADER, then the one ORIGIN set, then the rest (finite, exhaustive)',
                 ['DLISFile.generator', 'LogicalFile.add_origin', 'EFLRSetsDict.get_or_make_set'], replay=R + 'order:replay_origin_first', validate=R + 'order:replay_origin_first', shards=(4, 4))
 SPECS['C09']['obligations'] = SPECS['C09']['obligations'] + _ofirst
